@@ -473,6 +473,8 @@ func runC08(c *Ctx, r *Report) {
 		}
 		noOrderFromDependencyMaps(c, r, "R-C08.11", roots)
 	}
+	r.Doc("R-C08.12", "entries are only written to while they are fresh (adopted from C05: a verification that seals links into the entry object it was handed leaves sealed-link fields in another log's entries, which then re-encode to other identifiers)")
+	importRules(c, r, "C05", []string{"R-C05.1"}, "R-C08.12")
 	r.Doc("R-C08.9", "what was written with a link key reads back with it: the sealed-box object holds its own copy of the key (adopted from C18)")
 	importRules(c, r, "C18", []string{"R-C18.9"}, "R-C08.9")
 	r.Doc("R-C08.8", "every setter of the entry and clock types stores its argument in the field its getter returns (the readers fill entries through setters, the writers read them through getters)")
